@@ -48,7 +48,8 @@ def r1(ctx):
     ctx.ob(run.qual, "no-early-exit", not live, run.loc(live[0]) if live else run.loc(loop), "the input loop is left only when the input is exhausted" if not live else "`%s` leaves the input loop before the input is exhausted: the remaining reads are never written" % u(live[0]), cfg.describe_path(cfg.find_path(head, cfg.nodes_of(live[0])[0])) if live else None)
     # record never mutated
     muts = [s for s in util.store_sites(loop) if s.root == rec]
-    ctx.ob(run.qual, "record-not-mutated", not muts, run.loc(muts[0].stmt) if muts else run.loc(loop), "no store, delete or mutator call on the record inside the loop" if not muts else "record is modified before it is written: %s" % muts[0].text())
+    rebinds = [s for s, v in util.assignments_to(loop, rec) if s is not loop]
+    ctx.ob(run.qual, "record-not-mutated", not muts and not rebinds, run.loc(muts[0].stmt) if muts else (run.loc(rebinds[0]) if rebinds else run.loc(loop)), "no store, delete, mutator call or rebinding of the record inside the loop" if not muts and not rebinds else "record is modified before it is written: %s" % (muts[0].text() if muts else u(rebinds[0])))
     # skipping paths = documented continues only
     G1 = {("discard_unknown_reads", True), ("%s in known_reads" % name, False)}
     conts = [n for n in cfg.g.nodes if cfg.kind(n) == "continue" and n in cfg.loop_body_nodes(head) | set(cfg.g.nodes)]
@@ -140,6 +141,17 @@ def r2(ctx):
     st = [s for s in util.store_sites(pl.node) if s.kind == "subscript" and u(s.target.value) == "readname_to_haplotype"]
     ok = len(st) == 1 and u(st[0].target.slice) == "readname" and u(st[0].value) == "haplo_num" and isinstance(util.single_def(pl.node, "haplo_num"), ast.Subscript) and u(util.single_def(pl.node, "haplo_num")) == "haplotype_to_int[haplo_name]"
     ctx.ob(pl.qual, "entry-stored-under-its-name", ok, pl.loc(st[0].stmt) if st else pl.loc(), "readname_to_haplotype[readname] = haplotype_to_int[haplo_name]" if ok else "list entries are not stored as readname -> haplotype_to_int[haplo_name]")
+    # --only-largest-block: a block is identified by (chromosome, phase set) in every table that speaks about it
+    sizes = [n for n in walk_function(pl.node) if isinstance(n, ast.AugAssign) and u(n.target).startswith("block_sizes[")]
+    names = [c for c in ctx.prog.calls_in(pl.node) if isinstance(c.func, ast.Attribute) and c.func.attr == "add" and u(c.func.value).startswith("blocks_to_readnames[")]
+    sel = ctx.func(MOD + ".select_reads_in_largest_phased_blocks")
+    sparams = util.params_of(sel.node)
+    look = [x for x in walk_function(sel.node) if isinstance(x, ast.Subscript) and u(x.value) == sparams[1]]
+    ok = len(sizes) == 1 and u(sizes[0].target) == "block_sizes[chromosome][phaseset]" and len(names) == 1 and u(names[0].func.value) == "blocks_to_readnames[chromosome, phaseset]" and u(names[0].args[0]) == "readname"
+    ok = ok and len(look) == 1 and u(look[0].slice) in ("(chromosome, block_name)",)
+    loops = [n for n in walk_function(sel.node) if isinstance(n, ast.For) and u(n.iter) == "%s.items()" % sparams[0]]
+    ok = ok and len(loops) == 1 and [u(t) for t in loops[0].target.elts] == ["chromosome", "block_counts"] and any(isinstance(n, ast.Assign) and u(n.value) == "block_counts.most_common(1)[0]" and u(n.targets[0].elts[0]) == "block_name" for n in ast.walk(loops[0]))
+    ctx.ob(pl.qual, "block-identity-includes-chromosome", ok, pl.loc(names[0]) if names else pl.loc(), "block sizes and block read names are both keyed by (chromosome, phase set); the largest block per chromosome is looked up under the same key" if ok else "the tables describing phase blocks do not all identify a block by (chromosome, phase set): blocks with the same id on different chromosomes are conflated")
     rets = [n for n in walk_function(pl.node) if isinstance(n, ast.Return)]
     ok = len(rets) == 1 and isinstance(rets[0].value, ast.Tuple) and u(rets[0].value.elts[0]) == "readname_to_haplotype"
     ctx.ob(pl.qual, "returns-map-first", ok, pl.loc(rets[0]) if rets else pl.loc(), "the map is the first returned value" if ok else "process_haplotag_list_file does not return the map first")
@@ -249,4 +261,4 @@ RULES = [
     ("C14.R3", "every write is paired with the histogram of its output", r3),
     ("C14.R4", "histogram rows: distinct sorted lengths, one count per output", r4),
 ]
-FLOORS = {"C14.R1": 7, "C14.R2": 13, "C14.R3": 3, "C14.R4": 3}
+FLOORS = {"C14.R1": 7, "C14.R2": 14, "C14.R3": 3, "C14.R4": 3}
